@@ -203,7 +203,8 @@ AddStmt ==
                 add(S("logic", x, y, 0, op, <<>>, 0))
           \/ "logic" \in Kinds /\ \E x \in bools : add(S("not", x, 0, 0, "!", <<>>, 0))
           \/ "neg" \in Kinds /\ \E x \in ints : add(S("neg", x, 0, 0, "-", <<>>, 0))
-          \/ "shift" \in Kinds /\ \E x \in ints : \E op \in {"<<", ">>"} : \E c \in 1..(W(ts[x]) - 1) :
+          \* counts up to the width and one beyond (the value is shifted out; a negative value leaves -1 under >>)
+          \/ "shift" \in Kinds /\ \E x \in ints : \E op \in {"<<", ">>"} : \E c \in 1..(W(ts[x]) + 1) :
                 add(S("shift", x, 0, 0, op, <<>>, c))
           \/ "cast" \in Kinds /\ \E x \in ints : \E t \in IntTypes \ {ts[x]} : add(S("cast", x, 0, 0, "", t, 0))
           \/ "if" \in Kinds /\ \E c \in bools : \E x \in ints : \E y \in {v \in ints : ts[v] = ts[x]} :
